@@ -316,9 +316,14 @@ impl Prop for C03 {
                 if p.contains_key("Nope") || p.get("Nope").is_some() || p.get_all("Nope").count() != 0 {
                     out.push(viol("absent-key", format!("text {:?}", text)));
                 }
-                // a name in another letter case is another name
+                // a name in another letter case, a prefix or an extension of a name is another name
                 for (k, _) in want {
-                    for alt in [k.to_lowercase(), k.to_uppercase()] {
+                    let mut shorter = k.clone();
+                    shorter.pop();
+                    for alt in [k.to_lowercase(), k.to_uppercase(), format!("{}x", k), shorter] {
+                        if alt.is_empty() {
+                            continue;
+                        }
                         if !want.iter().any(|(k2, _)| *k2 == alt) && (p.contains_key(&alt) || p.get(&alt).is_some() || p.get_all(&alt).count() != 0) {
                             out.push(viol("absent-key", format!("text {:?}: lookup of {:?} finds the field {:?}", text, alt, k)));
                         }
